@@ -8,7 +8,7 @@
    ALL schedules `sched` and all amounts of fuel. *)
 From Coq Require Import QArith ZArith NArith List Bool Lia.
 From PL.C09 Require Import BoolGraph.
-From PL.C06 Require Import ModelPropagate ProofsPropagate ModelWMC ProofsWMC.
+From PL.C06 Require Import ModelPropagate ProofsPropagate ModelWMC ProofsWMC ModelReplace ProofsReplace.
 Import ListNotations.
 
 (* ------------------------------------------------------------------ evidence propagation is sound *)
@@ -55,6 +55,23 @@ Theorem C06_replace_constants : forall m a g,
     holds_in (vget (dag_val a g)) m -> dag_val_c m a g = dag_val a g.
 Proof. exact dag_val_c_eq. Qed.
 Print Assumptions C06_replace_constants.
+
+(* possibly cyclic ground programs (LogicFormula before cycle breaking), stable-model semantics: a model that
+   satisfies the evidence is still a model after the propagated nodes were replaced by constants ... *)
+Theorem C06_replace_constants_cyclic : forall g a s ev sched fuel m,
+    is_model g a s -> sat_lits s ev -> propagate_m g ev [] sched fuel = Done m ->
+    is_model (replace_consts m g) a s.
+Proof. exact propagate_replace_model. Qed.
+Print Assumptions C06_replace_constants_cyclic.
+
+(* ... and when the replaced program is stratified it is its only model: in every world satisfying the
+   evidence every node (hence every query) has the same value before and after the replacement *)
+Theorem C06_condition_invariant_cyclic : forall g a s s' ev sched fuel m,
+    is_model g a s -> sat_lits s ev -> propagate_m g ev [] sched fuel = Done m ->
+    stratified (replace_consts m g) -> is_model (replace_consts m g) a s' ->
+    forall k, s' k = s k.
+Proof. exact propagate_replace_unique. Qed.
+Print Assumptions C06_condition_invariant_cyclic.
 
 (* P(q | e) on the formula with the propagated nodes replaced by constants = P(q | e) on the
    original, for every weight function, every atom list, every query literal *)
